@@ -96,7 +96,7 @@ func emitted(f func()) (out bool, panicked any) {
 		if p := recover(); p != nil {
 			panicked = p
 		}
-		for _, e := range sink.take() {
+		for _, e := range takeAll() {
 			if e.K == "w" && len(e.payload) > 0 {
 				out = true
 			}
